@@ -70,6 +70,7 @@ func c12Units(tier string) []Unit {
 				sc, cf, sh := sc, cf, sh
 				sc.Cfg = cf.c
 				sc.Keys = txnKeys
+				sc.FSPoints = true
 				units = append(units, Unit{Name: fmt.Sprintf("race/%s/%s/budgets=%v/shard%d of %d", sc.Name, cf.n, budgets, sh, shards), Weight: 10, Run: func(c *Ctx) {
 					exploreTxn(c, sc, budgets, shards, sh, oracleC05, oracleC06, oracleC07)
 				}})
